@@ -120,7 +120,12 @@ NU_NOTE = "Trusted: Lean kernel, axioms propext/Classical.choice/Quot.sound, har
 CLAIMS.update({
     "C06": dict(
         technique="Lean 4 theorems (run contract of rescoring and empty-pattern runs, snapshot guard, in-flight removal, strict total order of the comparison) over the protocol model + replay of seeded histories with paused writers and per-snapshot oracle",
-        text="Partial proof. Theorems: the snapshot is replaced only by the result of a finished, un-cancelled run while the matcher is Fresh, and always together with that run's "
+        text="Theorems. C06_protocol (companion file C06_Protocol, composed with the tick-protocol invariant P07 of C07_Protocol): after EVERY history of injector/clone/drop/reparse/"
+             "restart(true|false)/tick events - ticks that complete or time out, runs that complete or are cancelled at an arbitrary point, every lock outcome - the snapshot is "
+             "consistent (SnapshotConsistent): its matches are exactly the items its pattern matches, with that pattern's scores, among a duplicate-free set of initialised items of "
+             "its stream whose size is the reported item count, no item twice, ordered by (score desc, item length asc, index asc) with the items' true lengths (run_seen: every "
+             "index a completed run accounts for was observed as what the stream holds). Restriction: non-empty patterns (the empty pattern's run is C06_trivial_run_contract, not "
+             "composed). Building blocks: the snapshot is replaced only by the result of a finished, un-cancelled run while the matcher is Fresh, and always together with that run's "
              "stream handle and processed-item count; the in-flight indices are processed in ascending order whatever order the pool threads report them in (repair of F11, with the "
              "[5,3] regression decided in the model); placeholder entries sort behind real matches of equal score. The run contract is a theorem for the two kinds of run that rebuild the list from the "
              "worker's bookkeeping alone (companion file C06_RunContract): after a completed full-rescoring run - from ANY earlier state of the match list (left by completed, timed-out "
@@ -132,8 +137,7 @@ CLAIMS.update({
              "stream's content, processed items stay readable, counter monotone and below u32::MAX, the cancel flag not seen). The incremental paths are theorems under the hypothesis that the list was right for the items accounted so far: unchanged pattern "
              "(C06_unchanged_run_contract: in-flight items that completed and newly published items are scored and merged) and appended edit (C06_update_run_contract: the existing "
              "entries are rescored under a pattern that can only match what the old one matched); with nothing in flight a right list is the from-scratch result (C06_quiescent). "
-             "Not a theorem: the state left by a CANCELLED run on the incremental paths (a following appended edit is covered by the oracle only; a following rescoring or "
-             "empty-pattern run is covered by the theorems above, which assume nothing about the list). "
+             "The state a CANCELLED run leaves is the Loose invariant of C07_Cancelled; C06_Protocol shows such a worker is never copied into the snapshot. "
              "The whole contract (matches = exactly the matching processed "
              "items, once each, scored, ordered) is also evaluated on every real snapshot of every generated history (writers paused between reservation and publication, 1-3 pool "
              "threads, 1-2 columns), and model = implementation on all of them.",
